@@ -362,13 +362,57 @@ def c_end_before(view, a):
     return _single(view, a, lambda s, e, v: e < v if strict else e <= v)
 
 
+def _group_bounds(view, gid):
+    """A task group used as an operand of a precedence: its start / end are auxiliary unknowns, the start at or
+    before every scheduled member (and inside the window), the end at or after. Returns (start range, end range) as
+    (lo, hi) pairs with None for unbounded, or None when no member is scheduled."""
+    ga = view.dd[gid]["args"]
+    ts = [r["$"] for r in ga["list_of_tasks"] if view.sched[r["$"]]]
+    if not ts:
+        return None
+    mins, maxe = min(view.start[t] for t in ts), max(view.end[t] for t in ts)
+    if ga.get("time_interval") is not None:
+        a_, b_ = ga["time_interval"]
+        return (a_, mins), (maxe, b_)
+    if ga.get("time_interval_length") is not None:
+        return (maxe - ga["time_interval_length"], mins), (maxe, mins + ga["time_interval_length"])
+    return (None, mins), (maxe, None)
+
+
 def c_precedence(view, a):
     b, f = a["task_before"]["$"], a["task_after"]["$"]
+    off = a.get("offset", 0)
+    k = a.get("kind", "lax")
+    gb = view.dd[b]["cls"] in ("UnorderedTaskGroup", "OrderedTaskGroup")
+    gf = view.dd[f]["cls"] in ("UnorderedTaskGroup", "OrderedTaskGroup")
+    if gb or gf:
+        if gb and gf:
+            return None
+        if gb:
+            if not view.sched[f]:
+                return True
+            rng = _group_bounds(view, b)
+            if rng is None:
+                return True
+            lo, hi = rng[1]  # the group's end may be anything from the last member's end up to the window's end
+            x = view.start[f] - off  # lax: some end <= x ; strict: some end < x ; tight: x is a possible end
+            if hi is not None and hi < lo:
+                return None
+            return lo <= x if k == "lax" else lo < x if k == "strict" else (lo <= x and (hi is None or x <= hi))
+        if not view.sched[b]:
+            return True
+        rng = _group_bounds(view, f)
+        if rng is None:
+            return True
+        lo, hi = rng[0]  # the group's start: from the window's start up to the first member's start
+        x = view.end[b] + off
+        if lo is not None and hi < lo:
+            return None
+        return x <= hi if k == "lax" else x < hi if k == "strict" else (x <= hi and (lo is None or lo <= x))
     if not (view.sched[b] and view.sched[f]):
         return True
-    lo = view.end[b] + a.get("offset", 0)
+    lo = view.end[b] + off
     up = view.start[f]
-    k = a.get("kind", "lax")
     return lo <= up if k == "lax" else lo < up if k == "strict" else lo == up
 
 
